@@ -110,6 +110,8 @@ def oracle_rollup(case, obs):
             out.append(("compute_status raised on step statuses %s" % ch, "crash"))
         return out
     if case.get("hook_failed"):
+        if case.get("reachable") and res == "error":
+            return out      # a cleanup error on top of the hook error
         if res != "hook_error":
             out.append(("hook failure on the element but status %s" % res, "hook-failed-not-hook-error"))
         return out
@@ -219,6 +221,42 @@ def _shrink(case):
         yield dict(case, children=ch[:i] + ch[i + 1:])
 
 
+def oracle_reachable(prog, obs):
+    """every node of the model after a real run: status vs the roll-up of what it contains"""
+    out = []
+    if obs.get("crashed"):
+        return [("runner.run() let an exception escape: %s" % obs["crashed"], "run-crashed")]
+
+    cleanup_raised = any(e[0] == "cleanup" and e[2] for e in obs["log"])
+
+    def node(kind, r, children):
+        if not children:
+            return
+        if cleanup_raised and r["status"] == "error":
+            return          # a raising cleanup sets the owner to error whatever it contains (C13)
+        case = {"kind": kind, "children": children, "hook_failed": r.get("hook_failed", False), "reachable": True}
+        for msg, sig in oracle_rollup(case, {"status": r["status"], "via_property": r["status"]}):
+            out.append(("after a real run, %s %s: %s" % (kind, r["name"], msg), sig))
+
+    def item(x):
+        if x["kind"] == "outline":
+            for row in x["rows"]:
+                node("scenario", row, row["steps"])
+            node("outline", x, [row["status"] for row in x["rows"]])
+        else:
+            node("scenario", x, x["steps"])
+    for t in obs["tree"]:
+        for it in t["items"]:
+            if it["kind"] == "rule":
+                for x in it["items"]:
+                    item(x)
+                node("rule", it, [x["status"] for x in it["items"]])
+            else:
+                item(it)
+        node("feature", t, [x["status"] for x in t["items"]])
+    return out
+
+
 def suites(tier, seed):
     rnd = random.Random(seed * 7919 + 3)
     thorough = (tier == "thorough")
@@ -276,4 +314,27 @@ def suites(tier, seed):
                 "nontrivial": _nontrivial, "histogram": _hist, "shrink": _shrink,
                 "coq": {"header": HEADER, "in_ty": "nat * list status", "out_ty": "status",
                         "fn": "fun c => outline_compute (fst c) (snd c)", "eqb": "status_eqb", "enc": enc_outline}})
+    # -- statuses reachable by real runs (cut short by --stop / abort, never started, de-selected, hook errors)
+    import runcluster as rc
+    progs = []
+    for i in range(5000 if thorough else 900):
+        p = rc.gen_program(rnd)
+        if i % 2:
+            p = rc.with_random_faults(rnd, p, p_fault=0.7)
+        progs.append(p)
+    out.append({"name": "reachable", "cases": progs, "impl": rc.impl_run, "oracle": oracle_reachable,
+                "nontrivial": lambda c, o: len(set(s for t in o.get("tree", []) for s in _all_statuses(t))) >= 2,
+                "histogram": rc.histogram, "shrink": rc.shrink_program,
+                "bound": "%d seeded random programs run through the real runner (hook faults, --stop, abort, dry-run, tag selection)" % len(progs),
+                "coq": rc.COQ})
     return out
+
+
+def _all_statuses(t):
+    yield t["status"]
+    for it in t["items"]:
+        yield it["status"]
+        for x in it.get("items", []) + it.get("rows", []):
+            yield x["status"]
+            for y in x.get("rows", []):
+                yield y["status"]
